@@ -408,7 +408,7 @@ head_stubs! {
 
 // ---- C08: reuse ------------------------------------------------------------------------------------------
 // A generator that already produced something (symbolic mode: scratch state poked dirty — one junk output byte,
-// one stack item, PROTO flag arbitrary; native mode: a real earlier call) returns, for the same input, exactly
+// one stack item, PROTO flag as a completed call leaves it; native mode: a real earlier call) returns, for the same input, exactly
 // what a fresh generator returns, with or without reset() in between.  Contracts are deterministic here (each
 // call appends b'N'), so equal inputs must give equal outputs.
 macro_rules! head_reuse {
@@ -437,7 +437,10 @@ macro_rules! head_reuse {
                 {
                     g2.output.push(junk);
                     g2.state.stack.push(StackObject::None);
-                    g2.state.proto_emitted = flag;
+                    // invariant of a generator that completed a call: PROTO was written iff the protocol has one
+                    // (an arbitrary flag would admit pre-states no history reaches, e.g. P >= 2 with the flag off)
+                    let _ = flag;
+                    g2.state.proto_emitted = p >= 2;
                 }
                 #[cfg(test)]
                 {
